@@ -2168,4 +2168,407 @@ theorem handleFc_stmt (s : State) (env : Env) (f : FcFrame) (hR : Rep env s) (hL
       · obtain ⟨h1, h2⟩ := handleFc_other s env f hR hL hst hw hc
         exact ⟨env, h1, by rw [h2]; exact hR, Frame.refl _ _⟩
 
+/-! ### what `_process_tx` never changes before its tail -/
+
+/-- same configuration, address, clock reading and rate limiter: the primitives `txM` are the same -/
+def SameK (s s' : State) : Prop := s'.cfg = s.cfg ∧ s'.addr = s.addr ∧ s'.now = s.now ∧ s'.rl = s.rl
+
+theorem SameK.refl (s : State) : SameK s s := ⟨rfl, rfl, rfl, rfl⟩
+theorem SameK.trans {a b c : State} (h1 : SameK a b) (h2 : SameK b c) : SameK a c :=
+  ⟨h2.1.trans h1.1, h2.2.1.trans h1.2.1, h2.2.2.1.trans h1.2.2.1, h2.2.2.2.trans h1.2.2.2⟩
+theorem SameK.txM {s s' : State} (h : SameK s s') : txM s' = txM s := txM_eq h.1 h.2.1 h.2.2.1 h.2.2.2
+
+theorem sameK_error (s : State) (e : Err) : SameK s (s.error e) := ⟨rfl, rfl, rfl, rfl⟩
+theorem sameK_stopSending (s : State) (ok : Bool) : SameK s (s.stopSending ok) := by
+  unfold State.stopSending; cases s.active <;> exact ⟨rfl, rfl, rfl, rfl⟩
+theorem sameK_handleFc (s : State) (f : FcFrame) : SameK s (s.handleFc f) := by
+  unfold State.handleFc
+  repeat' (first | split | dsimp only)
+  all_goals first
+    | exact ⟨rfl, rfl, rfl, rfl⟩
+    | exact sameK_error _ _
+    | exact (sameK_error _ _).trans (sameK_stopSending _ _)
+
+/-! ### the model, region `prefix` -/
+
+/-- how the prefix of the model's `processTx` ends -/
+inductive PrefixOut where
+  /-- a Python exception escapes -/
+  | raised (s : State) (e : PyExc)
+  /-- early `return ProcessTxReport(msg=out, immediate_rx_required=imm)` -/
+  | ret (s : State) (out : Option CanMsg) (imm : Bool)
+  /-- falls through -/
+  | next (s : State)
+
+/-- the pending Flow Control part -/
+def pendM (s : State) : PrefixOut :=
+  if s.pendingFc then
+    let s := { s with pendingFc := false }
+    match s.pendingFcStatus with
+    | none => .raised s .AttributeError
+    | some st =>
+      let s := if st = 0 then s.startRxCfTimer else s
+      if !s.cfg.listen then
+        match makeFlowControl s.cfg s.addr st with
+        | none => .raised s .ValueError
+        | some msg => .ret s (some msg) true
+      else .next s
+  else .next s
+
+/-- the mailbox read (already done: `fc` is the frame read, `s.lastFc = none`) and Flow Control handling -/
+def fcM (s : State) (fc : Option FcFrame) : PrefixOut :=
+  match fc with
+  | some f => if f.status = 2 then .ret ((s.stopSending false).error .Overflow) none false else .next (s.handleFc f)
+  | none => .next s
+
+/-- the N_Bs timeout -/
+def timeoutM (s : State) : State :=
+  if s.timerFc.timedOut s.now then (s.error .FlowControlTimeout).stopSending false else s
+
+/-- the "no transmission in progress" check -/
+def deplM (s : State) : PrefixOut :=
+  if s.txState ≠ .idle && s.active.isNone then .raised s .AssertionError
+  else .next (if s.txState ≠ .idle && (match s.active with | some r => r.depleted | none => false) && s.standby.isNone
+    then s.stopSending true else s)
+
+/-- everything before the dispatch on `tx_state` -/
+def prefixR (s : State) : PrefixOut :=
+  match pendM s with
+  | .next s1 =>
+    (match fcM { s1 with lastFc := none } s1.lastFc with
+     | .next s2 => deplM (timeoutM s2)
+     | o => o)
+  | o => o
+
+theorem reportP_msg (m : CanMsg) (b : Bool) : reportP (msgPV m) b = .ok (reportPV (some m) b) := rfl
+
+theorem fn_make_fc_int (c : Cfg) (a : Addr) (now : Nat) (rl : Limiter) (env : Env) (i : Int) :
+    (txMeths c a now rl).fn "self._make_flow_control#flow_status" [pint i] env =
+      (match makeFlowControl c a i.toNat with
+       | some m => .ok (msgPV m)
+       | none => .error (.exc .ValueError)) := rfl
+
+/-- **pending Flow Control** (statement 2 of the prefix) -/
+theorem pend_stmt (s : State) (env : Env) (hR : Rep env s) :
+    match pendM s with
+    | .raised _ e => execStmt (txM s) env (nth PRE 2) = .error (.exc e)
+    | .ret s' out imm =>
+      ∃ env', execStmt (txM s) env (nth PRE 2) = .ok (.returned (reportPV out imm) env') ∧ Rep env' s' ∧ SameK s s'
+    | .next s' => ∃ env', execStmt (txM s) env (nth PRE 2) = .ok (.next env') ∧ Rep env' s' ∧ Frame [] env env' ∧ SameK s s' := by
+  unfold pendM
+  have hpf := hR.pendingFc
+  by_cases hp : s.pendingFc = true
+  · rw [hp] at hpf
+    simp only [hp, if_true]
+    have hpfs := hR.pfs
+    obtain ⟨o, hst⟩ : ∃ o, s.pendingFcStatus = o := ⟨_, rfl⟩
+    cases o with
+    | none =>
+      simp only [hst, Option.map] at hpfs
+      simp only [hst]
+      simp [PRE, nth, Src.TransportLayerLogic_p_process_tx__prefix, execStmt, execBlock, eval, hpf, set_get, hpfs]
+    | some st =>
+      simp only [hst, Option.map] at hpfs
+      simp only [hst]
+      have hl := hR.listen
+      by_cases h0 : st = 0
+      · subst h0
+        simp only [if_true]
+        by_cases hli : s.cfg.listen = true
+        · rw [hli] at hl
+          simp only [State.startRxCfTimer, hli, Bool.not_true, Bool.false_eq_true, if_false]
+          refine ⟨?_, ?h1, ?h2, ?h3, ⟨rfl, rfl, rfl, rfl⟩⟩
+          case h1 =>
+            simp [PRE, nth, Src.TransportLayerLogic_p_process_tx__prefix, execStmt, execBlock, eval, evalArgs, hpf, set_get, hpfs,
+              hR.consts.cts, bi_none, proc_start_cf, hl]
+            rfl
+          case h2 => simpa [hst, State.startRxCfTimer] using (hR.setPendingFc false).startCf
+          case h3 =>
+            exact (((Frame.refl _ env).set (.inl (by decide)) _).set (.inl (by decide)) _).set (.inl (by decide)) _
+        · simp only [Bool.not_eq_true] at hli
+          rw [hli] at hl
+          simp only [State.startRxCfTimer, hli, Bool.not_false, if_true]
+          obtain ⟨om, hm⟩ : ∃ om, makeFlowControl s.cfg s.addr 0 = om := ⟨_, rfl⟩
+          cases om with
+          | none =>
+            simp only [hm]
+            simp [PRE, nth, Src.TransportLayerLogic_p_process_tx__prefix, execStmt, execBlock, eval, evalArgs, hpf, set_get, hpfs,
+              hR.consts.cts, bi_none, proc_start_cf, hl, fn_make_fc_int, hm]
+          | some msg =>
+            simp only [hm]
+            refine ⟨?_, ?h1, ?h2, ⟨rfl, rfl, rfl, rfl⟩⟩
+            case h1 =>
+              simp [PRE, nth, Src.TransportLayerLogic_p_process_tx__prefix, execStmt, execBlock, eval, evalArgs, hpf, set_get, hpfs,
+                hR.consts.cts, bi_none, proc_start_cf, hl, fn_make_fc_int, hm, fn_report, reportP_msg]
+              rfl
+            case h2 =>
+              simpa [hst, State.startRxCfTimer] using
+                ((hR.setPendingFc false).startCf).setOther (k := "flow_control_msg") (by decide) (msgPV msg)
+      · have h0' : ¬ (st : Int) = 0 := by omega
+        simp only [h0, if_false]
+        by_cases hli : s.cfg.listen = true
+        · rw [hli] at hl
+          simp only [hli, Bool.not_true, Bool.false_eq_true, if_false]
+          refine ⟨?_, ?h1, ?h2, ?h3, ⟨rfl, rfl, rfl, rfl⟩⟩
+          case h1 =>
+            simp [PRE, nth, Src.TransportLayerLogic_p_process_tx__prefix, execStmt, execBlock, eval, evalArgs, hpf, set_get, hpfs,
+              hR.consts.cts, bi_none, hl, h0, h0']
+            rfl
+          case h2 => simpa [hst] using hR.setPendingFc false
+          case h3 => exact (Frame.refl _ env).set (.inl (by decide)) _
+        · simp only [Bool.not_eq_true] at hli
+          rw [hli] at hl
+          simp only [hli, Bool.not_false, if_true]
+          obtain ⟨om, hm⟩ : ∃ om, makeFlowControl s.cfg s.addr st = om := ⟨_, rfl⟩
+          cases om with
+          | none =>
+            simp only [hm]
+            simp [PRE, nth, Src.TransportLayerLogic_p_process_tx__prefix, execStmt, execBlock, eval, evalArgs, hpf, set_get, hpfs,
+              hR.consts.cts, bi_none, hl, fn_make_fc_int, hm, h0, h0']
+          | some msg =>
+            simp only [hm]
+            refine ⟨?_, ?h1, ?h2, ⟨rfl, rfl, rfl, rfl⟩⟩
+            case h1 =>
+              simp [PRE, nth, Src.TransportLayerLogic_p_process_tx__prefix, execStmt, execBlock, eval, evalArgs, hpf, set_get, hpfs,
+                hR.consts.cts, bi_none, hl, fn_make_fc_int, hm, fn_report, reportP_msg, h0, h0']
+              rfl
+            case h2 =>
+              simpa [hst] using (hR.setPendingFc false).setOther (k := "flow_control_msg") (by decide) (msgPV msg)
+  · simp only [Bool.not_eq_true] at hp
+    rw [hp] at hpf
+    simp only [hp, Bool.false_eq_true, if_false]
+    refine ⟨env, ?_, hR, Frame.refl _ _, SameK.refl _⟩
+    simp [PRE, nth, Src.TransportLayerLogic_p_process_tx__prefix, execStmt, execBlock, eval, hpf]
+
+/-- **Flow Control reception** (statement 5 of the prefix): Overflow stops the transmission and returns; otherwise `handleFc` -/
+theorem fc_stmt (s : State) (env : Env) (fc : Option FcFrame) (hR : Rep env s)
+    (hfcf : env "flow_control_frame" = some (optFcPV fc)) (hL : ∀ f, fc = some f → FcLoc env f) :
+    match fcM s fc with
+    | .raised _ e => execStmt (txM s) env (nth PRE 5) = .error (.exc e)
+    | .ret s' out imm =>
+      ∃ env', execStmt (txM s) env (nth PRE 5) = .ok (.returned (reportPV out imm) env') ∧ Rep env' s' ∧ SameK s s'
+    | .next s' => ∃ env', execStmt (txM s) env (nth PRE 5) = .ok (.next env') ∧ Rep env' s' ∧ Frame [] env env' ∧ SameK s s' := by
+  unfold fcM
+  cases fc with
+  | none =>
+    simp only [optFcPV] at hfcf
+    simp only
+    refine ⟨env, ?_, hR, Frame.refl _ _, SameK.refl _⟩
+    simp [PRE, nth, Src.TransportLayerLogic_p_process_tx__prefix, execStmt, execBlock, eval, hfcf]
+  | some f =>
+    simp only [optFcPV] at hfcf
+    have hL' := hL f rfl
+    simp only
+    have hshape : nth PRE 5 = .ite (.isNotNone (.var "flow_control_frame")) (.cons (nth (thenOf (nth PRE 5)) 0) (.cons hfStmt .nil)) .nil := rfl
+    rw [hshape, ite_true (v := pbool true) (by simp [eval, hfcf]) rfl]
+    by_cases h2 : f.status = 2
+    · simp only [h2, if_true]
+      obtain ⟨env1, he1, R1, hF1⟩ := stopP_rep hR false []
+      have hK := sameK_stopSending s false
+      have htr := trigP_rep R1 .Overflow
+      rw [hK.2.2.1] at htr
+      have hfs := hL'.fs
+      rw [h2] at hfs
+      have h0 : execStmt (txM s) env (nth (thenOf (nth PRE 5)) 0) = .ok (.returned (reportPV none false)
+          (env1.set "#log" (.list (histOf (s.stopSending false).log ++ [.py (.int 0), .py (.int s.now), .py (.int (errCode .Overflow))])))) := by
+        simp [PRE, nth, thenOf, Src.TransportLayerLogic_p_process_tx__prefix, execStmt, execBlock, eval, evalArgs, hfs, hR.consts.ovf,
+          bi_none, proc_stop, he1, fn_err_overflow, proc_trigger, htr, fn_report, reportP, reportPV]
+      rw [cons_ret h0]
+      refine ⟨_, rfl, ?_, hK.trans (sameK_error _ _)⟩
+      have := R1.error .Overflow
+      rwa [hK.2.2.1] at this
+    · simp only [h2, if_false]
+      have h2' : ¬ (f.status : Int) = 2 := by omega
+      have hfs := hL'.fs
+      have h0 : execStmt (txM s) env (nth (thenOf (nth PRE 5)) 0) = .ok (.next env) := by
+        simp [PRE, nth, thenOf, Src.TransportLayerLogic_p_process_tx__prefix, execStmt, execBlock, eval, hfs, hR.consts.ovf, h2, h2']
+      rw [cons_next h0, block_single]
+      obtain ⟨env', he, hR', hF⟩ := handleFc_stmt s env f hR hL'
+      exact ⟨env', he, hR', hF, sameK_handleFc s f⟩
+
+/-- **N_Bs timeout** (statement 6 of the prefix) -/
+theorem timeout_stmt (s : State) (env : Env) (hR : Rep env s) :
+    ∃ env', execStmt (txM s) env (nth PRE 6) = .ok (.next env') ∧ Rep env' (timeoutM s) ∧ Frame [] env env' ∧
+      SameK s (timeoutM s) := by
+  unfold timeoutM
+  by_cases hto : s.timerFc.timedOut s.now = true
+  · simp only [hto, if_true]
+    obtain ⟨env', he, hR', hF⟩ := stopP_rep (hR.error .FlowControlTimeout) false []
+    refine ⟨env', ?_, hR', ((Frame.refl _ env).set (.inl (by decide)) _).trans hF, (sameK_error _ _).trans (sameK_stopSending _ _)⟩
+    simp [PRE, nth, Src.TransportLayerLogic_p_process_tx__prefix, execStmt, execBlock, eval, evalArgs, bi_none, fn_fc_timed_out,
+      hR.fcStart, hR.fcTo, timedOutP_timer, hto, fn_err_fctimeout, proc_trigger, trigP_rep hR, proc_stop, he]
+  · simp only [hto, if_false, Bool.false_eq_true]
+    refine ⟨env, ?_, hR, Frame.refl _ _, SameK.refl _⟩
+    simp [PRE, nth, Src.TransportLayerLogic_p_process_tx__prefix, execStmt, execBlock, eval, evalArgs, bi_none, fn_fc_timed_out,
+      hR.fcStart, hR.fcTo, timedOutP_timer, hto]
+
+/-- **"no transmission in progress"** (statement 7 of the prefix) -/
+theorem depl_stmt (s : State) (env : Env) (hR : Rep env s) :
+    match deplM s with
+    | .raised _ e => execStmt (txM s) env (nth PRE 7) = .error (.exc e)
+    | .ret _ _ _ => False
+    | .next s' => ∃ env', execStmt (txM s) env (nth PRE 7) = .ok (.next env') ∧ Rep env' s' ∧ Frame [] env env' ∧ SameK s s' := by
+  unfold deplM
+  have hts := hR.txState
+  by_cases hi : s.txState = .idle
+  · simp only [hi, ne_eq, not_true_eq_false, decide_false, Bool.false_and, Bool.false_eq_true, if_false]
+    rw [hi] at hts
+    refine ⟨env, ?_, hR, Frame.refl _ _, SameK.refl _⟩
+    simp [PRE, nth, Src.TransportLayerLogic_p_process_tx__prefix, execStmt, execBlock, eval, hts, hR.consts.idle, pvEq_txSt]
+  · have hact := hR.active
+    have hsb := hR.standby
+    cases ha : s.active with
+    | none =>
+      simp only [ha, Option.isSome_none, objPV] at hact
+      simp [hi]
+      simp [PRE, nth, Src.TransportLayerLogic_p_process_tx__prefix, execStmt, execBlock, eval, hts, hR.consts.idle, pvEq_txSt, hi, hact]
+    | some r =>
+      simp only [ha, Option.isSome_some, objPV] at hact
+      have hq := hR.req r ha
+      simp only [Option.isNone_some, Bool.and_false, Bool.false_eq_true, if_false]
+      by_cases hd : (r.depleted && s.standby.isNone) = true
+      · simp only [Bool.and_eq_true] at hd
+        have hsn : s.standby = none := by cases h : s.standby <;> simp_all
+        rw [hsn] at hsb
+        obtain ⟨env', he, hR', hF⟩ := stopP_rep hR true []
+        have e : (decide (s.txState ≠ TxSt.idle) && r.depleted && s.standby.isNone) = true := by simp [hi, hd.1, hsn]
+        simp only [e, if_true]
+        refine ⟨env', ?_, hR', hF, sameK_stopSending _ _⟩
+        simp [PRE, nth, Src.TransportLayerLogic_p_process_tx__prefix, execStmt, execBlock, eval, evalArgs, hts, hR.consts.idle,
+          pvEq_txSt, hi, hact, bi_none, fn_depleted, genDepleted_rep hq, hd.1, hsb, optMsgPV, proc_stop, he]
+      · have e : ¬ (decide (s.txState ≠ TxSt.idle) && r.depleted && s.standby.isNone) = true := by
+          intro h; apply hd; simp only [Bool.and_eq_true] at h ⊢; exact ⟨h.1.2, h.2⟩
+        simp only [e, if_false]
+        refine ⟨env, ?_, hR, Frame.refl _ _, SameK.refl _⟩
+        by_cases hdp : r.depleted = true
+        · have hsn : ∃ m, s.standby = some m := by
+            cases h : s.standby with
+            | none => exact absurd (by simp [hdp, h]) hd
+            | some m => exact ⟨m, rfl⟩
+          obtain ⟨m, hm⟩ := hsn
+          rw [hm] at hsb
+          simp [PRE, nth, Src.TransportLayerLogic_p_process_tx__prefix, execStmt, execBlock, eval, evalArgs, hts, hR.consts.idle,
+            pvEq_txSt, hi, hact, bi_none, fn_depleted, genDepleted_rep hq, hdp, hsb, optMsgPV]
+        · simp [PRE, nth, Src.TransportLayerLogic_p_process_tx__prefix, execStmt, execBlock, eval, evalArgs, hts, hR.consts.idle,
+            pvEq_txSt, hi, hact, bi_none, fn_depleted, genDepleted_rep hq, hdp]
+
+theorem pendM_next_lastFc {s s1 : State} (h : pendM s = .next s1) : s1.lastFc = s.lastFc := by
+  unfold pendM at h
+  by_cases hp : s.pendingFc = true
+  · simp only [hp, if_true] at h
+    cases hst : s.pendingFcStatus with
+    | none => simp [hst] at h
+    | some st =>
+      simp only [hst] at h
+      by_cases hl : s.cfg.listen = true
+      · by_cases h0 : st = 0 <;> simp [h0, hl, State.startRxCfTimer] at h <;> rw [← h]
+      · simp only [Bool.not_eq_true] at hl
+        by_cases h0 : st = 0 <;> simp [h0, hl, State.startRxCfTimer] at h <;> split at h <;> cases h
+  · simp only [hp, Bool.false_eq_true, if_false] at h
+    cases h; rfl
+
+theorem PRE_shape : PRE = .cons (nth PRE 0) (.cons (nth PRE 1) (.cons (nth PRE 2) (.cons (nth PRE 3) (.cons (nth PRE 4)
+    (.cons (nth PRE 5) (.cons (nth PRE 6) (.cons (nth PRE 7) (.cons (nth PRE 8) .nil)))))))) := rfl
+
+/-- **`prefix`**: everything before the dispatch on `tx_state`.  Early returns exactly when the model returns early (pending Flow
+    Control emitted, Overflow), with the model's state and report; exceptions exactly when the model raises (`AttributeError`:
+    status attribute never set, `ValueError`: `_make_flow_control`, `AssertionError`: no active request outside IDLE); otherwise
+    the environment of the model state, with `output_msg = None`, `allowed_bytes`, `immediate_rx_msg_required = False`. -/
+theorem prefix_agrees (s : State) (env : Env) (hR : Rep env s) (hL : ∀ f, s.lastFc = some f → FcLoc env f) :
+    match prefixR s with
+    | .raised _ e => execBlock (txM s) env PRE = .error (.exc e)
+    | .ret s' out imm => ∃ env', execBlock (txM s) env PRE = .ok (.returned (reportPV out imm) env') ∧ Rep env' s' ∧ SameK s s'
+    | .next s' =>
+      ∃ env', execBlock (txM s) env PRE = .ok (.next env') ∧ Rep env' s' ∧ env' "output_msg" = some pnone ∧
+        env' "allowed_bytes" = some (pint (s.rl.allowedBytes s.cfg.rlBitMax)) ∧
+        env' "immediate_rx_msg_required" = some (pbool false) ∧ SameK s s' ∧
+        Frame ["output_msg", "allowed_bytes", "flow_control_frame", "immediate_rx_msg_required"] env env' := by
+  rw [PRE_shape]
+  have h0 : execStmt (txM s) env (nth PRE 0) = .ok (.next (env.set "output_msg" pnone)) := by
+    simp [PRE, nth, Src.TransportLayerLogic_p_process_tx__prefix, execStmt, eval]
+  rw [cons_next h0]
+  have h1 : execStmt (txM s) (env.set "output_msg" pnone) (nth PRE 1) =
+      .ok (.next ((env.set "output_msg" pnone).set "allowed_bytes" (pint (s.rl.allowedBytes s.cfg.rlBitMax)))) := by
+    simp [PRE, nth, Src.TransportLayerLogic_p_process_tx__prefix, execStmt, eval, evalArgs, bi_none, fn_allowed]
+  rw [cons_next h1]
+  have R1 := (hR.setOther (k := "output_msg") (by decide) pnone).setOther (k := "allowed_bytes") (by decide)
+    (pint (s.rl.allowedBytes s.cfg.rlBitMax))
+  generalize he1 : (env.set "output_msg" pnone).set "allowed_bytes" (pint (s.rl.allowedBytes s.cfg.rlBitMax)) = env1 at *
+  have hF1 : Frame ["output_msg", "allowed_bytes"] env env1 := by
+    rw [← he1]; exact ((Frame.refl _ env).set (.inr (by decide)) _).set (.inr (by decide)) _
+  have ho1 : env1 "output_msg" = some pnone := by rw [← he1]; simp [set_get]
+  have ha1 : env1 "allowed_bytes" = some (pint (s.rl.allowedBytes s.cfg.rlBitMax)) := by rw [← he1]; simp [set_get]
+  unfold prefixR
+  have hp := pend_stmt s env1 R1
+  cases hpm : pendM s with
+  | raised s' e => rw [hpm] at hp; simp only at hp ⊢; rw [cons_err hp]
+  | ret s' out imm =>
+    rw [hpm] at hp; simp only at hp ⊢
+    obtain ⟨env', he, hR', hK⟩ := hp
+    rw [cons_ret he]
+    exact ⟨env', rfl, hR', hK⟩
+  | next s1 =>
+    rw [hpm] at hp; simp only at hp ⊢
+    obtain ⟨env2, he2, R2, hF2, hK1⟩ := hp
+    rw [cons_next he2]
+    have hlf := pendM_next_lastFc hpm
+    have h3 : execStmt (txM s) env2 (nth PRE 3) = .ok (.next (env2.set "flow_control_frame" (optFcPV s1.lastFc))) := by
+      simp [PRE, nth, Src.TransportLayerLogic_p_process_tx__prefix, execStmt, eval, R2.lastFc]
+    rw [cons_next h3]
+    have h4 : execStmt (txM s) (env2.set "flow_control_frame" (optFcPV s1.lastFc)) (nth PRE 4) =
+        .ok (.next ((env2.set "flow_control_frame" (optFcPV s1.lastFc)).set "self.last_flow_control_frame" pnone)) := by
+      simp [PRE, nth, Src.TransportLayerLogic_p_process_tx__prefix, execStmt, eval]
+    rw [cons_next h4]
+    have R4 : Rep ((env2.set "flow_control_frame" (optFcPV s1.lastFc)).set "self.last_flow_control_frame" pnone)
+        { s1 with lastFc := none } := by
+      simpa [optFcPV] using (R2.setOther (k := "flow_control_frame") (by decide) (optFcPV s1.lastFc)).setLastFc none
+    generalize he4 : (env2.set "flow_control_frame" (optFcPV s1.lastFc)).set "self.last_flow_control_frame" pnone = env4 at *
+    have hF4 : Frame ["output_msg", "allowed_bytes", "flow_control_frame"] env env4 := by
+      rw [← he4]
+      exact (((hF1.mono (by simp)).trans (hF2.mono (by simp))).set (.inr (by decide)) _).set (.inl (by decide)) _
+    have hfcf : env4 "flow_control_frame" = some (optFcPV s1.lastFc) := by rw [← he4]; simp [set_get]
+    have hL4 : ∀ f, s1.lastFc = some f → FcLoc env4 f := fun f hf =>
+      (hL f (by rw [← hlf]; exact hf)).frame hF4 (by decide)
+    have hfc := fc_stmt { s1 with lastFc := none } env4 s1.lastFc R4 hfcf hL4
+    have hM1 : txM ({ s1 with lastFc := none } : State) = txM s := hK1.txM
+    rw [hM1] at hfc
+    cases hfm : fcM { s1 with lastFc := none } s1.lastFc with
+    | raised s' e => rw [hfm] at hfc; simp only at hfc ⊢; rw [cons_err hfc]
+    | ret s' out imm =>
+      rw [hfm] at hfc; simp only at hfc ⊢
+      obtain ⟨env', he, hR', hK⟩ := hfc
+      rw [cons_ret he]
+      exact ⟨env', rfl, hR', hK1.trans hK⟩
+    | next s2 =>
+      rw [hfm] at hfc; simp only at hfc ⊢
+      obtain ⟨env5, he5, R5, hF5, hK2'⟩ := hfc
+      have hK2 : SameK s s2 := hK1.trans hK2'
+      rw [cons_next he5]
+      obtain ⟨env6, he6, R6, hF6, hK3'⟩ := timeout_stmt s2 env5 R5
+      rw [hK2.txM] at he6
+      have hK3 : SameK s (timeoutM s2) := hK2.trans hK3'
+      rw [cons_next he6]
+      have hd := depl_stmt (timeoutM s2) env6 R6
+      rw [hK3.txM] at hd
+      cases hdm : deplM (timeoutM s2) with
+      | raised s' e => rw [hdm] at hd; simp only at hd ⊢; rw [cons_err hd]
+      | ret s' out imm => rw [hdm] at hd; exact hd.elim
+      | next s3 =>
+        rw [hdm] at hd; simp only at hd ⊢
+        obtain ⟨env7, he7, R7, hF7, hK4'⟩ := hd
+        rw [cons_next he7, block_single]
+        have h8 : execStmt (txM s) env7 (nth PRE 8) = .ok (.next (env7.set "immediate_rx_msg_required" (pbool false))) := by
+          simp [PRE, nth, Src.TransportLayerLogic_p_process_tx__prefix, execStmt, eval]
+        have hF7' : Frame ["output_msg", "allowed_bytes", "flow_control_frame"] env env7 :=
+          ((hF4.trans (hF5.mono (by simp))).trans (hF6.mono (by simp))).trans (hF7.mono (by simp))
+        have hF17 : Frame ["flow_control_frame"] env1 env7 := by
+          have a : Frame ["flow_control_frame"] env1 env4 := by
+            rw [← he4]
+            exact ((hF2.mono (by simp)).set (.inr (by decide)) _).set (.inl (by decide)) _
+          exact ((a.trans (hF5.mono (by simp))).trans (hF6.mono (by simp))).trans (hF7.mono (by simp))
+        refine ⟨_, h8, R7.setOther (by decide) _, ?_, ?_, by simp [set_get], hK3.trans hK4', ?_⟩
+        · simp only [set_get]; rw [hF17 _ (by decide) (by decide)]; simpa using ho1
+        · simp only [set_get]; rw [hF17 _ (by decide) (by decide)]; simpa using ha1
+        · exact (hF7'.mono (by simp)).set (.inr (by decide)) _
+
 end Isotp.PyAgree.Tx
